@@ -186,4 +186,38 @@ Proof.
   - now rewrite seq_length, repeat_length.
   - exists segs. rewrite seq_length in H3. auto.
 Qed.
+
+(* the other variants: the same structure for the columns that are drawn *)
+Corollary select_rand_to_best_first_hit n_pop n_select n_parents ranks s P s' :
+  select (T := T) SRandToBest n_pop n_select n_parents ranks s = Ok (P, s') ->
+  exists P0 segs, P = map swap01 P0 /\ length segs = n_parents - 1 /\ cols_hit (seq 0 n_select) (repeat [0] n_select) segs P0 /\
+    s = concat (map (col_events n_pop n_select) segs) ++ s'.
+Proof.
+  cbn [select]. intro H. apply bind_ok in H as (P0 & s1 & H & Hr). apply ret_ok in Hr as [<- <-].
+  destruct (fill_cols_first_hit n_pop (seq 0 n_select) (n_parents - 1) (repeat [0] n_select) s P0 s1 H) as (segs & H1 & H2 & H3).
+  - now rewrite seq_length, repeat_length.
+  - exists P0, segs. rewrite seq_length in H3. auto.
+Qed.
+
+Corollary select_current_to_best_first_hit n_pop n_select n_parents ranks s P s' :
+  select (T := T) SCurToBest n_pop n_select n_parents ranks s = Ok (P, s') ->
+  exists segs, length segs = n_parents - 3 /\ cols_hit (seq 0 n_select) (map (fun i => [i; 0; i]) (seq 0 n_select)) segs P /\
+    s = concat (map (col_events n_pop n_select) segs) ++ s'.
+Proof.
+  cbn [select]. destruct (negb (n_select =? n_pop) || (n_parents <? 3)); [discriminate|]. intro H.
+  destruct (fill_cols_first_hit n_pop (seq 0 n_select) (n_parents - 3) (map (fun i => [i; 0; i]) (seq 0 n_select)) s P s' H) as (segs & H1 & H2 & H3).
+  - now rewrite map_length.
+  - exists segs. rewrite seq_length in H3. auto.
+Qed.
+
+Corollary select_ranked_first_hit n_pop n_select n_parents ranks s P s' :
+  select (T := T) SRanked n_pop n_select n_parents ranks s = Ok (P, s') ->
+  exists P0 segs, P = map (rank_sort_row (fun i => nth i (ranks_from ranks) 0)) P0 /\ length segs = n_parents /\
+    cols_hit (seq 0 n_select) (repeat [] n_select) segs P0 /\ s = concat (map (col_events n_pop n_select) segs) ++ s'.
+Proof.
+  cbn [select]. destruct (Nat.even n_parents); [discriminate|]. intro H. apply bind_ok in H as (P0 & s1 & H & Hr). apply ret_ok in Hr as [<- <-].
+  destruct (fill_cols_first_hit n_pop (seq 0 n_select) n_parents (repeat [] n_select) s P0 s1 H) as (segs & H1 & H2 & H3).
+  - now rewrite seq_length, repeat_length.
+  - exists P0, segs. rewrite seq_length in H3. auto.
+Qed.
 End Hit.
